@@ -1485,7 +1485,15 @@ struct Exec
 						at += 12 + len ;
 					}
 				}
-				if (kind == "chunk_field" && !cks.empty ())
+				if (kind == "chunk_field" && !cks.empty () && e.geti ("size_field", 0))
+				{	// the length field of the chunk itself (CAF: the low word of its 64-bit length)
+					const Ck &c = cks [(size_t) (e.geti ("chunk", 0) % (int64_t) cks.size ())] ;
+					int64_t val = e.geti ("val", 0) ; bool be = fam != 2 ; int64_t at = fam == 4 ? c.hdr + 8 : c.hdr + 4 ;
+					for (int b = 0 ; b < 4 && at + b < sz ; b++) d [(size_t) (at + b)] = (uint8_t) (val >> (8 * (be ? 3 - b : b))) ;
+					if (fam == 4 && e.geti ("swap", 0)) for (int b = 0 ; b < 4 && c.hdr + 4 + b < sz ; b++) d [(size_t) (c.hdr + 4 + b)] = 0xff ;
+					probe ("corrupt:chunk_size") ;
+				}
+				else if (kind == "chunk_field" && !cks.empty ())
 				{	// counts and sizes live in the first bytes of a chunk payload: overwrite one of them with a boundary value
 					const Ck &c = cks [(size_t) (e.geti ("chunk", 0) % (int64_t) cks.size ())] ;
 					int w = (int) e.geti ("width", 2) ; int64_t val = e.geti ("val", 0) ;
@@ -1515,7 +1523,7 @@ struct Exec
 						{	uint64_t hs = mix3 (key, 0x116 + k, (uint64_t) sc) ;
 							const char *sn = subs [row][hs & 7] ; pay.insert (pay.end (), sn, sn + 4) ;
 							uint32_t sl = (uint32_t) ((hs >> 3) % 40), stated = sl ;
-							switch ((hs >> 12) & 7) { case 0 : stated = sl + 1 ; break ; case 1 : stated = 0xffffffffu ; break ; case 2 : stated = 4095 ; break ; case 3 : stated = sl ? sl - 1 : 0 ; break ; default : break ; }
+							switch ((hs >> 12) & 7) { case 0 : stated = sl + 1 ; break ; case 1 : stated = 0xffffffffu ; break ; case 2 : stated = 4095 ; break ; case 3 : stated = sl ? sl - 1 : 0 ; break ; case 4 : stated = 0u - 4 * (uint32_t) (1 + ((hs >> 20) & 3)) ; break ; default : break ; }
 							for (int b = 0 ; b < 4 ; b++) pay.push_back ((uint8_t) (stated >> (8 * (be ? 3 - b : b)))) ;
 							for (uint32_t b = 0 ; b < sl ; b++) pay.push_back (((hs >> 16) & 1) && b + 1 < sl ? (uint8_t) ('a' + b % 26) : (uint8_t) mix3 (key, 0x117 + k, (uint64_t) (sc * 64 + b))) ;
 							if (sl & 1) pay.push_back (0) ;
